@@ -36,6 +36,8 @@ import (
 //	gateway-services:rows-lost:proxy-without-destination-instance   lost wildcard row created online by a proxy registration for a service that has no
 //	                                                          local typical instance with a local connect instance (what restore's expansion walks)
 //	mesh-topology:rows-lost:proxy-without-destination-instance      its twin (Upstream = that service, Downstream = the gateway)
+//	gateway-services:rows-lost:wildcard-row-stale-online     lost wildcard row of a service that restore's expansion rule (restoreWouldExpand) skips
+//	mesh-topology:rows-lost:wildcard-row-stale-online        its twin
 //	mesh-topology:rows-lost:stale-row-of-vanished-proxy-online      lost row none of whose Refs (node/serviceID) is a registered instance any more
 //	mesh-topology:rows-added:refs-ignore-peer-name           added row whose Ref matches both a local proxy and an imported proxy that still has the upstream
 //	kind-service-names:connect-enabled-row-stale-online      lost connect-enabled row, no connect instance of the service exists any more
@@ -141,6 +143,30 @@ func (c *cutCtx) hasConnectInstanceFor(svc string, anyPeer bool) bool {
 		}
 	}
 	return false
+}
+
+// restoreWouldExpand: would restore's wildcard expansion (state/catalog.go updateGatewayNamespace, run by
+// Restore.ConfigEntry after all registrations) create the row gateway -> svc? It walks LOCAL TYPICAL instances
+// and keeps a name iff it has a local connect instance (ingress / api gateway) resp. a local instance that is
+// not connect-native (terminating gateway).
+func (c *cutCtx) restoreWouldExpand(gwKind, svc string) bool {
+	typical, hasConnect, hasNonConnect := false, c.hasConnectInstanceFor(svc, false), false
+	for _, r := range c.a["services"] {
+		f := topFields(r)
+		if f["PeerName"] != "" || !strings.EqualFold(unq(f["ServiceName"]), svc) {
+			continue
+		}
+		if f["ServiceKind"] == "" {
+			typical = true
+		}
+		if topFields(f["ServiceConnect"])["Native"] != "T" {
+			hasNonConnect = true
+		}
+	}
+	if gwKind == "terminating-gateway" {
+		return typical && hasNonConnect
+	}
+	return typical && hasConnect
 }
 
 // wildcardRowOnlyFromProxy: the online wildcard row exists because a proxy registration created it
@@ -325,6 +351,12 @@ func (c *cutCtx) lostRow(t string, f map[string]string, raw string, add func(sig
 			add("gateway-services:rows-lost:proxy-without-destination-instance", desc)
 			return
 		}
+		// the online row outlived the condition that created it (e.g. the service became connect-native under a
+		// terminating gateway, or lost its last proxy under an ingress gateway): restore's expansion skips it
+		if f["FromWildcard"] == "T" && !c.restoreWouldExpand(unq(f["GatewayKind"]), svc) {
+			add("gateway-services:rows-lost:wildcard-row-stale-online", desc)
+			return
+		}
 	case "mesh-topology":
 		up, down := nested(f["Upstream"], "Name"), nested(f["Downstream"], "Name")
 		gw := c.configEntry("ingress-gateway", down)
@@ -333,6 +365,10 @@ func (c *cutCtx) lostRow(t string, f map[string]string, raw string, add func(sig
 		}
 		if gw != nil && c.wildcardRowOnlyFromProxy(up) {
 			add("mesh-topology:rows-lost:proxy-without-destination-instance", desc)
+			return
+		}
+		if gw != nil && strings.Contains(gw["Listeners"]+gw["Services"], `(Name="*"`) && !c.restoreWouldExpand(unq(gw["Kind"]), up) {
+			add("mesh-topology:rows-lost:wildcard-row-stale-online", desc)
 			return
 		}
 		// stale online row: none of the proxies it refers to exists any more (e.g. its node was renamed by ID)
@@ -470,6 +506,14 @@ func (c *cutCtx) changedRow(t string, fa, fb map[string]string, rawA, rawB strin
 		if diff["ServiceKind"] && unq(fa["ServiceKind"]) == "service" && fb["ServiceKind"] == "" && (c.hasInstanceNamed(svc) || c.hasConnectInstanceFor(svc, true)) &&
 			(fa["FromWildcard"] == "T" || gwKind != "terminating-gateway") {
 			add("gateway-services:ServiceKind:kind-empty-after-restore", desc)
+			explained("ServiceKind")
+		}
+		if diff["ServiceKind"] && unq(fa["ServiceKind"]) == "service" && fb["ServiceKind"] == "" && gwKind == "terminating-gateway" &&
+			fa["FromWildcard"] == "" && !c.hasInstanceNamed(svc) && c.caseVariants {
+			// explicit terminating-gateway row for "web" whose kind was resolved through the lower-cased index from
+			// an instance spelled "Web": removing that instance looks the row up by its exact name and leaves the
+			// kind behind; restore resolves it again and finds no instance
+			add("case-folding:gateway-services", desc)
 			explained("ServiceKind")
 		}
 		if diff["RaftIndex"] && ce != nil {
